@@ -107,7 +107,7 @@ impl Property for P {
     }
     fn cases(tier: Tier) -> u64 {
         match tier {
-            Tier::Quick => 3_000,
+            Tier::Quick => 15_000,
             Tier::Thorough => 100_000,
         }
     }
